@@ -140,6 +140,8 @@ func Spec(prop, tier string) *core.CheckSpec {
 				{Engine: "crash", Mode: "src", Runs: n(20000, 3000000), Millis: ms(25000, 500000)},
 				{Engine: "crash", Mode: "lib", Runs: n(30000, 3000000), Millis: ms(25000, 500000)},
 				{Engine: "crash", Mode: "ramp", Runs: n(600, 60000), Millis: ms(30000, 600000), Workers: 6, HangS: 180, Chunk: 100},
+				{Engine: "model", Mode: "close-crash", Runs: n(12000, 1500000), Millis: ms(12000, 300000), Note: "SimLua programs (coroutines, to-be-closed values, handlers that yield or raise, coroutine.close at any point) under the controlled scheduler; only escaping panics, process crashes, dead-locks and hangs count here"},
+				{Engine: "model", Mode: "coro-crash", Runs: n(12000, 1500000), Millis: ms(12000, 300000), Note: "as above, coroutine-heavy shapes"},
 			},
 			Real:   realAll,
 			Stub:   []string{"limits (kill points) and corrupted bytes come from the tape; the operating system is real (working directory moved to a scratch directory, destructive functions excluded from the lib workload)"},
